@@ -31,6 +31,64 @@ fn nest_fn<'a>() -> impl Parser<'a, &'a str, usize, X<'a>> + Clone + 'a {
     recursive(|h| nest_body(h))
 }
 
+// ---- property C19: drop accounting with statically typed outputs, zero-sized ones included ----
+thread_local! {
+    static LIVE: std::cell::Cell<i64> = std::cell::Cell::new(0);
+    static MADE: std::cell::Cell<i64> = std::cell::Cell::new(0);
+}
+/// a zero-sized output with a destructor
+#[derive(Debug)]
+struct Z;
+impl Z {
+    fn new() -> Z {
+        LIVE.with(|c| c.set(c.get() + 1));
+        MADE.with(|c| c.set(c.get() + 1));
+        Z
+    }
+}
+impl Drop for Z {
+    fn drop(&mut self) {
+        LIVE.with(|c| c.set(c.get() - 1));
+    }
+}
+/// the same, one byte wide
+#[derive(Debug)]
+struct S1(u8);
+impl S1 {
+    fn new() -> S1 {
+        LIVE.with(|c| c.set(c.get() + 1));
+        MADE.with(|c| c.set(c.get() + 1));
+        S1(1)
+    }
+}
+impl Drop for S1 {
+    fn drop(&mut self) {
+        LIVE.with(|c| c.set(c.get() - 1));
+    }
+}
+/// parse and check `s`, drop everything, and report whether every value created was dropped exactly once
+fn balanced<'a, O>(p: impl Parser<'a, &'a str, O, X<'a>>, s: &'a str) -> String {
+    LIVE.with(|c| c.set(0));
+    MADE.with(|c| c.set(0));
+    let r = std::panic::catch_unwind(std::panic::AssertUnwindSafe(|| {
+        let ok = {
+            let res = p.parse(s);
+            let ok = res.has_output();
+            drop(res);
+            ok
+        };
+        let _ = p.check(s).has_errors();
+        ok
+    }));
+    drop(p);
+    let (live, made) = (LIVE.with(|c| c.get()), MADE.with(|c| c.get()));
+    match r {
+        Err(_) => "DIFF M PANIC | P no panic".to_string(),
+        Ok(ok) if live == 0 => format!("same accepted:{} created:{} live:0", ok, made),
+        Ok(ok) => format!("DIFF M accepted:{} created:{} live:{} | P live:0", ok, made, live),
+    }
+}
+
 fn run(sid: usize, s: &str) -> Option<String> {
     Some(match sid {
         // 0: a memoized parser memoized again (nested placement)
@@ -147,6 +205,38 @@ fn run(sid: usize, s: &str) -> Option<String> {
             let head = m.split(" [").next().unwrap_or("").to_string();
             let want = format!("{:?}", reference(s));
             if head == want { format!("same {}", head) } else { format!("DIFF M {} | P {}", m, want) }
+        }
+        // ---- property C19 ----
+        // 30: group([p; 3]) with a zero-sized output that has a destructor, also under an abandoned alternative
+        30 => {
+            let a = || just::<_, &str, X>('a').map(|_| Z::new());
+            balanced(group([a(), a(), a()]).map(|x| x.len()).or(any().repeated().count()), s)
+        }
+        // 31: the same with a one-byte output
+        31 => {
+            let a = || just::<_, &str, X>('a').map(|_| S1::new());
+            balanced(group([a(), a(), a()]).map(|x| x.len()).or(any().repeated().count()), s)
+        }
+        // 32: collect_exactly::<[Z; 3]> over a repetition and over a separated list whose item fails after the separator
+        32 => {
+            let a = || just::<_, &str, X>('a').map(|_| Z::new());
+            balanced(
+                a().repeated().collect_exactly::<[Z; 3]>().map(|x| x.len())
+                    .or(a().separated_by(just('b')).collect_exactly::<[Z; 2]>().map(|x| x.len()))
+                    .or(any().repeated().count()),
+                s,
+            )
+        }
+        // 33: tuple group, Vec collect and folds of zero-sized outputs, failing after some items
+        33 => {
+            let a = || just::<_, &str, X>('a').map(|_| Z::new());
+            balanced(
+                group((a(), a(), a())).map(|_| 3usize)
+                    .or(a().repeated().at_least(2).collect::<Vec<Z>>().then_ignore(just('b')).map(|v| v.len()))
+                    .or(a().foldl(a().repeated(), |x, _y| x).then_ignore(just('b')).map(|_| 1usize))
+                    .or(any().repeated().count()),
+                s,
+            )
         }
         _ => return None,
     })
